@@ -15,9 +15,12 @@ pub const TTL_ENTRY: i64 = 24;
 
 #[derive(Clone, Debug, PartialEq)]
 pub struct KeyM {
-    pub val: u64,
+    /// None = unknown (the entry was adopted from an observation the model did not predict)
+    pub val: Option<u64>,
     pub id: u64,
     pub expiry: Option<Dur>,
+    /// the entry's value / expiry was last set by a put_or_update
+    pub by_upsert: bool,
 }
 
 #[derive(Clone, Copy, Debug, PartialEq, Eq, Hash, PartialOrd, Ord)]
@@ -76,6 +79,11 @@ pub struct Model {
     pub last_mutation: String,
     /// key of the last write operation
     pub last_key: Option<u32>,
+    /// conditions that, once broken, stay broken: they are reported at the step that breaks them
+    pub bad_limit: bool,
+    pub bad_accounting: bool,
+    pub bad_keys_identity: bool,
+    pub bad_weight_identity: bool,
 }
 
 fn add_dur(a: Dur, b: Dur) -> Option<Dur> {
@@ -99,6 +107,10 @@ impl Model {
             sweeps_seen: 0,
             last_mutation: String::new(),
             last_key: None,
+            bad_limit: false,
+            bad_accounting: false,
+            bad_keys_identity: false,
+            bad_weight_identity: false,
         }
     }
 
@@ -124,11 +136,16 @@ impl Model {
         }
     }
 
-    pub fn expected_read(&self, k: u32) -> Option<u64> {
+    /// Some(Some(v)) = must return v, Some(None) = must return None, None = readable but the value
+    /// is unknown to the model (nothing is asserted about it)
+    pub fn expected_read(&self, k: u32) -> Option<Option<u64>> {
         if self.state(k).readable() {
-            self.keys.get(&k).map(|e| e.val)
+            match self.keys.get(&k).and_then(|e| e.val) {
+                Some(v) => Some(Some(v)),
+                None => None,
+            }
         } else {
-            None
+            Some(None)
         }
     }
 
@@ -226,13 +243,22 @@ impl Model {
             }
             Op::Read { kind, keys } => {
                 for (pos, k) in keys.iter().enumerate() {
-                    let exp = self.expected_read(*k);
                     let got = vals.get(pos).copied().flatten();
-                    if exp.is_some() {
+                    if self.state(*k).readable() {
                         self.stats.hits += 1;
                     } else {
                         self.stats.misses += 1;
                     }
+                    let exp = match self.expected_read(*k) {
+                        Some(e) => e,
+                        None => {
+                            // value unknown: only presence is judged
+                            if got.is_some() {
+                                continue;
+                            }
+                            None
+                        }
+                    };
                     if exp != got {
                         let state = self.state(*k);
                         let class = match (exp, got) {
@@ -409,7 +435,7 @@ impl Model {
                     });
                 }
                 let expiry = ttl.and_then(|d| add_dur(self.now, d));
-                self.keys.insert(key, KeyM { val, id, expiry });
+                self.keys.insert(key, KeyM { val: Some(val), id, expiry, by_upsert: what == "upsert" });
                 self.charged.insert(id, (key, w));
                 self.total += w;
                 self.stats.keys_added += 1;
@@ -499,9 +525,10 @@ impl Model {
         {
             let e = self.keys.get_mut(&key).unwrap();
             if let Some(v) = val {
-                e.val = v;
+                e.val = Some(v);
             }
             e.expiry = new_expiry;
+            e.by_upsert = true;
         }
         let existing_w = self.charged.get(&id).map(|c| c.1).unwrap_or(0);
         let mut upd = weight.or_else(|| val.map(|v| weight_of(&self.cfg.weight_fn, key, v, ttl.is_some())));
@@ -542,7 +569,7 @@ impl Model {
         // accepted upsert must not be lost
         if !state.readable() {
             if let Some(v) = val {
-                if self.expected_read(key) != Some(v) {
+                if self.expected_read(key) != Some(Some(v)) {
                     out.push(Mis {
                         aspect: "upsert",
                         class: "accepted-but-lost".into(),
@@ -591,7 +618,7 @@ impl Model {
     /// Compare the predicted state with an observation.
     pub fn compare(&self, o: &Obs, out: &mut Vec<Mis>) {
         let limit = self.cfg.weight;
-        if o.weight_used < 0 || o.weight_used > limit {
+        if (o.weight_used < 0 || o.weight_used > limit) && !self.bad_limit {
             out.push(Mis {
                 aspect: "limit",
                 class: if o.weight_used < 0 { "negative".into() } else { "over-limit".into() },
@@ -608,7 +635,7 @@ impl Model {
             });
         }
         let sum: i64 = o.weights.iter().map(|w| w.3).sum();
-        if sum != o.weight_used {
+        if sum != o.weight_used && !self.bad_accounting {
             out.push(Mis {
                 aspect: "accounting",
                 class: "sum-mismatch".into(),
@@ -618,7 +645,7 @@ impl Model {
         }
         let store_ids: BTreeSet<u64> = o.store.iter().map(|s| s.1).collect();
         let charged_ids: BTreeSet<u64> = o.weights.iter().map(|w| w.0).collect();
-        if store_ids != charged_ids {
+        if store_ids != charged_ids && !self.bad_accounting {
             let orphan: Vec<&u64> = charged_ids.difference(&store_ids).collect();
             let uncharged: Vec<&u64> = store_ids.difference(&charged_ids).collect();
             out.push(Mis {
@@ -689,7 +716,15 @@ impl Model {
                 msg: format!("hit_ratio = {} ppm with hits {} misses {}, expected {} ppm", s.hit_ratio_ppm, s.hits, s.misses, exp_ratio),
             });
         }
-        if s.keys_added.wrapping_sub(s.keys_deleted) != o.store.len() as u64 {
+        if s.hits + s.misses != m.hits + m.misses {
+            out.push(Mis {
+                aspect: "stats.identity",
+                class: "lookups".into(),
+                ctx: String::new(),
+                msg: format!("hits {} + misses {} != {} lookups performed", s.hits, s.misses, m.hits + m.misses),
+            });
+        }
+        if s.keys_added.wrapping_sub(s.keys_deleted) != o.store.len() as u64 && !self.bad_keys_identity {
             out.push(Mis {
                 aspect: "stats.identity",
                 class: "keys".into(),
@@ -697,7 +732,7 @@ impl Model {
                 msg: format!("KeysAdded {} - KeysDeleted {} != keys held {}", s.keys_added, s.keys_deleted, o.store.len()),
             });
         }
-        if s.weight_added.wrapping_sub(s.weight_removed) != o.weight_used as u64 {
+        if s.weight_added.wrapping_sub(s.weight_removed) != o.weight_used as u64 && !self.bad_weight_identity {
             out.push(Mis {
                 aspect: "stats.identity",
                 class: "weight".into(),
@@ -726,7 +761,7 @@ impl Model {
                     out.push(Mis {
                         aspect: "sweep-semantic",
                         class: if e.expiry.is_none() { "swept-no-ttl".into() } else { "swept-not-due".into() },
-                        ctx: String::new(),
+                        ctx: if e.by_upsert { "last=upsert".into() } else { "last=put".into() },
                         msg: format!(
                             "k{} (id {}, expiry {:?}) disappeared during a sweep step although the clock ({}.{:09}) has not passed its current expiry",
                             k, e.id, e.expiry.map(|x| (x.s, x.n)), now_after.s, now_after.n
@@ -764,11 +799,11 @@ impl Model {
         let mut keys = BTreeMap::new();
         let mut soft = BTreeSet::new();
         for (k, id, expiry, is_soft) in &o.store {
-            let val = match self.keys.get(k) {
-                Some(e) if e.id == *id => e.val,
-                _ => 0,
+            let (val, by_upsert) = match self.keys.get(k) {
+                Some(e) if e.id == *id => (e.val, e.by_upsert),
+                _ => (None, false),
             };
-            keys.insert(*k, KeyM { val, id: *id, expiry: *expiry });
+            keys.insert(*k, KeyM { val, id: *id, expiry: *expiry, by_upsert });
             if *is_soft {
                 soft.insert(*k);
             }
@@ -783,6 +818,13 @@ impl Model {
         self.stats.access_added = keep_access.0;
         self.stats.access_dropped = keep_access.1;
         self.stats.hit_ratio_ppm = 0;
+        self.bad_limit = o.weight_used < 0 || o.weight_used > self.cfg.weight;
+        let sum: i64 = o.weights.iter().map(|w| w.3).sum();
+        let store_ids: BTreeSet<u64> = o.store.iter().map(|s| s.1).collect();
+        let charged_ids: BTreeSet<u64> = o.weights.iter().map(|w| w.0).collect();
+        self.bad_accounting = sum != o.weight_used || store_ids != charged_ids;
+        self.bad_keys_identity = o.stats.keys_added.wrapping_sub(o.stats.keys_deleted) != o.store.len() as u64;
+        self.bad_weight_identity = o.stats.weight_added.wrapping_sub(o.stats.weight_removed) != o.weight_used as u64;
     }
 }
 
